@@ -37,6 +37,10 @@ class CellTranslator(AbstractTranslator):
                     lexer = Lexer.parse(cell.value, in_cell=cell)
                     ast = AstBuilder.parse(lexer, in_cell=cell)
                     code = EntryPointTokenTranslator.translate(ast, excel, context)
+                except RecursionError as e:
+                    # the grammar is right recursive: a very long operator chain or a very deep nesting (also of cells
+                    # that depend on each other) exhausts the interpreter stack - a problem of parsing, not a crash
+                    raise E2PyclParserException(f'Formula of {cell} is nested too deeply to be translated') from e
                 finally:
                     context._cells_in_translation.discard(cell_uid)
             else:
